@@ -56,8 +56,8 @@ CLAIMS = {
   note="Object invariant assumed at entry: state == Selected <=> mailbox != nil. Mutexes are no-ops; the goroutine setCaps may start is outside the sequential contract. Not covered: routing predicates of the other untagged responses (FETCH, LIST, SEARCH, ...), exactly-once completion (readResponseTagged), interleavings with beginCommand (schedules).",
   design="§6 C12"),
  "C15": dict(
-  text="Deductive proof (govc: weakest-precondition VCs over go/ssa of the real code, contracts in internal/imapnum/contracts_verif.go, discharged by z3/cvc5) that Range.Contains/Less/Merge equal their mathematical specification for all uint32 inputs incl. 2^32-1 and '*', that Set.search/Contains/Dynamic are correct on every canonical set (unbounded length), and that Range.append terminates and yields exactly the members in ascending order.",
-  note="Trusted: go/ssa + govc translation, solvers. Slice parameters viewed at offset 0; signed int arithmetic mathematical where no overflow obligation is generated. insert/AddRange/Parse/String not yet under contract (listed in evidence as not covered).",
+  text="Deductive proof (govc: weakest-precondition VCs over go/ssa of the real code, contracts in internal/imapnum/contracts_verif.go, discharged by z3/cvc5) that Range.Contains/Less/Merge equal their mathematical specification for all uint32 inputs incl. 2^32-1 and '*', that Set.search/Contains/Dynamic are correct on every canonical set (unbounded length), that Range.append terminates and yields exactly the members in ascending order, that parseNum accepts exactly '*' and the decimal numerals without leading zero that fit 32 bits (yielding that value), and that parseNumRange returns a range satisfying the representation invariant.",
+  note="Trusted: go/ssa + govc translation, solvers. Slice parameters viewed at offset 0; signed int arithmetic mathematical where no overflow obligation is generated. strconv.ParseUint modelled by a decimal-numeral theory (assumed). insert/AddRange/ParseSet/String not yet under contract (listed in evidence as not covered).",
   design="§6 C15"),
  "C16": dict(
   text="Deductive proof, for every input, chunking (atEOF or not, any decoder state carried over) and buffer size, of the safety and refusal half of the modified UTF-7 codec: encoder.Transform, decoder.Transform, encode and decode never index outside a buffer (the single allocation in decode is proved large enough for padding, UTF-16 and UTF-8 bytes; EncodeRune/Encode/Decode destination sizes are call-site obligations) and their loops terminate; both transformers keep nDst/nSrc inside the buffers and report success only when the whole source was consumed; the encoder writes only printable ASCII and, unless at EOF, refuses to encode a run of non-ASCII bytes that reaches the end of the chunk; the decoder reports success only if every source byte was printable ASCII (illegal bytes, CR/LF inside a shift), never accepts an unterminated shift (error at EOF, ErrShortSrc otherwise), rejects a base64 shift that directly follows the base64 shift of the previous call (state carried across calls), returns to its initial state after a successful call at EOF, and decode yields no printable-ASCII byte (printable ASCII hidden in base64 is rejected); the only errors are the three sentinels.",
